@@ -128,6 +128,9 @@ func (e *env) meshTier() {
 		add(id)
 	}
 	add("n:" + genASCII(r, 3) + ":" + genASCII(r, 2))
+	// IDs with cased letters: the plain spelling, and one that itself holds the KELVIN SIGN / LONG S
+	add("kiosk-7")
+	add("\u212aio\u017fk-8")
 	if e.c.Thorough() {
 		add(genUTF8(r, 6))
 		add(genNodeID(r))
@@ -171,6 +174,7 @@ func (e *env) meshTier() {
 		{Issuer: issOther, Window: winValid, EKU: ekuServer, Names: namExpected, E: srvID},
 		{Issuer: issRoot, Window: winValid, EKU: ekuClient, Names: namExpected, E: srvID},
 		{Issuer: issRoot, Window: winValid, EKU: ekuBoth, Names: namDNSOnly, E: srvID, D: srvID},
+		{Issuer: issRoot, Window: winValid, EKU: ekuServer, Names: namCaseFold, E: srvID, D: "srv.example"},
 	} {
 		srvCerts = append(srvCerts, e.p.make(cp))
 	}
@@ -236,6 +240,7 @@ func (e *env) meshTier() {
 			{"names-several", with(func(c *certParams) { c.Names = namSeveral })},
 			{"names-none", with(func(c *certParams) { c.Names = namNone })},
 			{"names-near-miss", with(func(c *certParams) { c.Names = namNearMiss })},
+			{"names-case-fold", with(func(c *certParams) { c.Names = namCaseFold })},
 			{"unrelated-ca", with(func(c *certParams) { c.Issuer = issOther })},
 			{"roots-ca", with(func(c *certParams) { c.Issuer = issRoot })},
 			{"expired", with(func(c *certParams) { c.Window = winExpired })},
